@@ -128,7 +128,7 @@ def run(seed=0, tier="quick"):
             res.update(ok=False, detail=f"{meta}: inverse eigenvalue table: null mode not zeroed", failing_case=meta)
             return res
         f = r.normal(size=shape)
-        u = np.zeros(shape)
+        u = r.normal(size=shape)                              # output arrays start dirty
         s.solve(solution_field=u, rhs_field=f.copy())
         full = (1,) + tuple(shape) if dim == 2 else tuple(shape)
         L = [f"dims {dim} {full[0]} {full[1]} {full[2]}"]
@@ -187,7 +187,7 @@ def oracle(seed=0, tier="quick", aimed=None):
                 # the solution of the smoothest mode is ~ (n/pi)^2 dx^2 larger than its right-hand side: round-off in the
                 # residual scales with eps * n^2 (measured: 1.2e-11 at n = 128 in float64, 5e-4 in float32)
                 tol = base_tol if k < 2 else max(base_tol, 40 * float(np.finfo(real_t).eps) * max(shape) ** 2)
-                u = np.zeros(shape, dtype=real_t)
+                u = r.normal(size=shape).astype(real_t)      # output arrays start dirty
                 with warnings.catch_warnings():
                     warnings.simplefilter("ignore")
                     try:
@@ -211,12 +211,14 @@ def oracle(seed=0, tier="quick", aimed=None):
                     return {"ok": False, "cases": cases, "samples": samples, "failing_input": {"oracle": "c11_neumann_problem", "what": what, **info}}
             if dim == 3:
                 F = r.normal(size=(3,) + shape).astype(real_t)
-                U = np.zeros_like(F)
+                if ci % 2 == 0:
+                    F[ci % 3] = 0            # a component with nothing to solve for (planar / axisymmetric set-ups): its solution is 0
+                U = r.normal(size=F.shape).astype(real_t)   # the output array is reused from step to step in the simulator: it starts dirty
                 with warnings.catch_warnings():
                     warnings.simplefilter("ignore")
                     s.vector_field_solve(solution_vector_field=U, rhs_vector_field=F.copy())
                     for c in range(3):
-                        u1 = np.zeros(shape, dtype=real_t)
+                        u1 = r.normal(size=shape).astype(real_t)
                         s.solve(solution_field=u1, rhs_field=F[c].copy())
                         cases += 1
                         if not np.array_equal(u1, U[c]):
